@@ -21,6 +21,14 @@ MAX_HELPER_STMTS = 40
 
 # ---------------------------------------------------------------------- canonical spellings
 
+# positional order of the leading parameters of standard-library functions the repository calls with keywords in some spellings
+_STDLIB_SIGNATURES = {
+    're.sub': ('pattern', 'repl', 'string', 'count', 'flags'), 're.subn': ('pattern', 'repl', 'string', 'count', 'flags'),
+    're.match': ('pattern', 'string', 'flags'), 're.search': ('pattern', 'string', 'flags'), 're.fullmatch': ('pattern', 'string', 'flags'),
+    're.compile': ('pattern', 'flags'), 're.findall': ('pattern', 'string', 'flags'), 're.split': ('pattern', 'string', 'maxsplit', 'flags'),
+}
+
+
 class _Canon(ast.NodeTransformer):
     def visit_FunctionDef(self, node):
         self._fn_stack = getattr(self, '_fn_stack', []) + [node.name]
@@ -32,6 +40,15 @@ class _Canon(ast.NodeTransformer):
 
     def visit_Call(self, node):
         self.generic_visit(node)
+        # re.sub(pattern=p, repl=r, string=s) -> re.sub(p, r, s): the leading parameters of the `re` functions, named
+        sig = _STDLIB_SIGNATURES.get(ast.unparse(node.func)) if isinstance(node.func, ast.Attribute) and node.keywords else None
+        if sig and not any(isinstance(a, ast.Starred) for a in node.args) and all(k.arg for k in node.keywords):
+            kws = {k.arg: k for k in node.keywords}
+            i = len(node.args)
+            while i < len(sig) and sig[i] in kws:
+                node.args.append(kws.pop(sig[i]).value)
+                i += 1
+            node.keywords = [k for k in node.keywords if k.arg in kws]
         # dict(<generator of 2-tuples>) -> {k: v for ...}
         if isinstance(node.func, ast.Name) and node.func.id == 'dict' and len(node.args) == 1 and not node.keywords \
                 and isinstance(node.args[0], ast.GeneratorExp):
@@ -1258,7 +1275,9 @@ def call_idioms(ctx, nf):
                     i = call.keywords.index(kw)
                     call.keywords[i:i + 1] = [ast.keyword(arg=k.value, value=clone(val)) for k, val in zip(v.keys, v.values)]
                 changed = True
-        elif isinstance(v, ast.Attribute) and isinstance(v.value, ast.Name) and len(binds.get(v.value.id, [])) <= 1:
+        elif isinstance(v, ast.Attribute) and ((isinstance(v.value, ast.Name) and len(binds.get(v.value.id, [])) <= 1) or
+                                               (isinstance(v.value, ast.Attribute) and isinstance(v.value.value, ast.Name)
+                                                and v.value.value.id == 'self')):
             ok = bool(us) and all(isinstance(getattr(u_, '_parent', None), ast.Call) and u_._parent.func is u_ for u_ in us)
             if ok:
                 for u_ in us:
